@@ -283,7 +283,17 @@ def write_coqproject():
     return False
 
 
-def build(jobs=NCPU, timeout=3600, only=None):
+def targets_of(mod):
+    """The .vo files (relative to coq/) a property check needs: its Props and Run modules."""
+    targets = ["theories/" + m.split(".", 1)[1].replace(".", "/") + ".vo" for m in mod.THEOREMS]
+    for extra in getattr(mod, "RUN_MODULES", ["Run.%sRun" % mod.PROP]):
+        f = "theories/" + extra.replace(".", "/") + ".v"
+        if os.path.exists(os.path.join(COQ, f)):
+            targets.append(f + "o")
+    return targets
+
+
+def build(jobs=NCPU, timeout=3600, only=None, keep_going=False):
     """Full .vo build through coq_makefile (no -vos).  Serialised by a lock so that
     concurrent checks do not run two makes in the same directory."""
     lock = open(os.path.join(COQ, ".build.lock"), "w")
@@ -293,7 +303,7 @@ def build(jobs=NCPU, timeout=3600, only=None):
         if changed or not os.path.exists(os.path.join(COQ, "Makefile")):
             subprocess.run(["coq_makefile", "-f", "_CoqProject", "-o", "Makefile"], cwd=COQ, check=True,
                            capture_output=True)
-        cmd = ["make", "-j%d" % jobs]
+        cmd = ["make", "-j%d" % jobs] + (["-k"] if keep_going else [])
         if only:
             cmd += only
         p = subprocess.run(cmd, cwd=COQ, capture_output=True, text=True, timeout=timeout)
@@ -327,11 +337,7 @@ def proof_obligations(ctx):
     mod = ctx.mod
     # build only what this property needs (its Props and Run files and their dependencies), so that
     # a broken file of another property cannot mask or fake a result here; setup.sh builds everything
-    targets = ["theories/" + m.split(".", 1)[1].replace(".", "/") + ".vo" for m in mod.THEOREMS]
-    for extra in getattr(mod, "RUN_MODULES", ["Run.%sRun" % mod.PROP]):
-        f = "theories/" + extra.replace(".", "/") + ".v"
-        if os.path.exists(os.path.join(COQ, f)):
-            targets.append(f + "o")
+    targets = targets_of(mod)
     rc, log = build(only=targets)
     if rc != 0:
         ctx.proof_failures.append({"what": "Coq development does not build", "log": log[-3000:]})
